@@ -335,6 +335,38 @@ def runT (s : Rx) (addr : String) (port : Nat) : List (Nat × Nat × Nat × Byte
     | .ok s' => runT s' addr port rest
     | .error e => (s, .error e)
 
+/-! ## The receive queue as the application sees it -/
+
+/-- `_rx_queue[bid] = item` on a Python dict: an existing key keeps its place and gets the new
+    value (the old entry is lost), a new key goes to the end. `addRx` appends; that the two agree in
+    every reachable state is `C13_rx_never_overwrites`. -/
+def dictSet (bid : Nat) (q : QItem) : List (Nat × QItem) → List (Nat × QItem)
+  | [] => [(bid, q)]
+  | (i, x) :: rest => if i = bid then (bid, q) :: rest else (i, x) :: dictSet bid q rest
+
+/-- `recv_bundle_get_queue()`: the ids that are queued. -/
+def queueIds (s : Rx) : List Nat := s.queue.map (·.1)
+
+/-- `recv_bundle_pop_data(bid)`: `_rx_queue.pop(bid)` — the data stored under `bid` and the queue
+    without it; `none` = `KeyError`. -/
+def popData (s : Rx) (bid : Nat) : Option (Bytes × Rx) :=
+  match s.queue.find? (fun q => q.1 == bid) with
+  | some q => some (q.2.data, { s with queue := s.queue.filter (fun q => q.1 != bid) })
+  | none => none
+
+/-- One step of the D-Bus visible history: a datagram arrives or the application pops an id. -/
+inductive Op
+  | dgram (rej : Bool) (addr : String) (port : Nat) (data : Bytes)
+  | pop (bid : Nat)
+  deriving Repr
+
+/-- the state after an operation (a failing pop changes nothing) -/
+def opStep (s : Rx) : Op → Rx
+  | .dgram rej addr port data => (recvDatagram rej s addr port data).1
+  | .pop bid => match popData s bid with
+    | some (_, s') => s'
+    | none => s
+
 /-! ## Confirmation ranges -/
 
 /-- `range_encode` over the atomic intervals `(lower, upper)` of a `portion` interval, ascending.
